@@ -278,7 +278,9 @@ def run_impl_est(case):
             priors = tuple(make_prior(pr, n) for pr in case["priors"])
             if len(priors) == 1:
                 priors = priors[0]
-        out = v.estimate(db, span, dof_correction=case["dof"], prior_obs=priors, num_variants=nvar)
+        with warnings.catch_warnings(), np.errstate(all="ignore"):
+            warnings.simplefilter("ignore")      # division by T_fitted - K = 0 (the model answers err:dof) only warns
+            out = v.estimate(db, span, dof_correction=case["dof"], prior_obs=priors, num_variants=nvar)
     except Exception as e:
         return {"error": impl_err(e), "exc": repr(e)[:300]}
     res = []
